@@ -173,6 +173,25 @@ def run(program, res, tier):
                         res.fail_at("C17-S3", cp, "composed-blocks_out", f"composed blocks_out takes control keys from `{txt}`", cc)
     if n_ctor < 4:
         raise AnalysisError("RecordMap.compose: composed specifications not found")
+    # the probe's cell values end up as column names of the composite's row-record side (control_table=rsi / rso):
+    # they must be the plain names, not the decorated ones example_input produces by default
+    ei = rm.methods.get("example_input")
+    probe_calls = [c for c in ast.walk(cp.node) if isinstance(c, ast.Call) and isinstance(c.func, ast.Attribute) and c.func.attr == "example_input"]
+    if ei is not None and probe_calls:
+        defaults = {a.arg: d for a, d in zip(ei.node.args.kwonlyargs, ei.node.args.kw_defaults) if d is not None}
+        for pc in probe_calls:
+            kws = {k.arg: k.value for k in pc.keywords}
+            for nm in ("value_suffix", "record_key_suffix"):
+                v = kws.get(nm, defaults.get(nm))
+                if nm == "record_key_suffix":
+                    continue  # record key columns are dropped from both control tables
+                if isinstance(v, ast.Constant) and v.value == "":
+                    res.ok("C17-S3", "compose(): the probe carries undecorated cell names (value_suffix='')")
+                else:
+                    res.fail_at("C17-S3", cp, "probe-decoration-leaks",
+                                f"compose() probes with example_input({nm}={unparse(v) if v is not None else None}): the decorated cell values flow through both "
+                                f"transforms into the control tables of the composite, so a composite with a row-record side expects columns named "
+                                f"'<col>{getattr(v, 'value', '')}' and (self.compose(other)).transform(d) raises 'missing required columns' where the sequential application works", pc)
     # every composite that compose() returns is derived from the sequential application of the two maps to the probe
     # (the only place where the middle specifications s1.blocks_out / s2.blocks_in meet)
     n_ret = 0
